@@ -1,4 +1,5 @@
 import JT.Props.C12
+import JT.Gen.ConcShape
 /-!
 # C13 — disconnects never crash the server or strand callers
 
@@ -101,4 +102,12 @@ example : Reach { init with created := 1, place := upd (upd (upd init.place 0 .o
                             stamp := upd init.stamp 0 (some 0), serial := 1, timers := [0] } :=
   .step (.step (.step .init (Or.inl (.call _))) (Or.inr (.mgrWrite _ 0 (by simp [upd, init]) rfl (by decide))))
     (Or.inr (.wSend _ 0 rfl (by simp [upd])))
+
+/-- assumptions of the transition system about `connection.stop` / `onStopEvent`, read off the source on every run:
+the key is removed from the registry BEFORE the stop signal and the socket close (no command can be queued to a
+connection whose writer has already drained), lookup + enqueue are atomic in the manager, and the stop handler
+empties the whole queue of not-yet-written commands -/
+theorem stop_as_modelled : Gen.stopLeaveBeforeClose = true ∧ Gen.stopDrainsAll = true ∧ Gen.managerOpsInClosure = true := by
+  decide
+
 end JT.C13
